@@ -4,6 +4,8 @@ cd /verif
 while read -r id props; do
   pid=${id%-*}; x=${id#*-}
   [ -d /tmp/seeded_in/$pid/$x ] && python3 tools/seed_verify.py $pid $x
+  case $x in C) y=A;; D) y=B;; *) y=;; esac
+  [ -n "$y" ] && [ -d /tmp/seeded_in2/$pid/$y ] && python3 tools/seed_verify.py $pid $y --in /tmp/seeded_in2 --as $x
   if [ -f seeded/$id/meta.json ] && python3 -c "import json,sys;sys.exit(0 if json.load(open('seeded/$id/meta.json'))['confirmed'].get('existing_suite_passes_with_change') is not False else 1)"; then
     python3 tools/seed_check.py $id $props
   fi
@@ -48,4 +50,44 @@ C20-B C20
 C05-B C05
 C13-B C13
 C16-A C16 C05 C06
+C01-C C01 C12 C03
+C01-D C01 C10 C11
+C02-C C02 C15
+C02-D C02 C08
+C03-C C03
+C03-D C03 C12 C01
+C04-C C04 C05
+C04-D C04 C07
+C05-C C05 C04
+C05-D C05 C04
+C06-C C06 C01
+C06-D C06 C09
+C07-C C07 C04
+C07-D C07 C04
+C08-C C08 C09 C11
+C08-D C08 C10
+C09-C C09 C02
+C09-D C09
+C10-C C10 C11
+C10-D C10 C08
+C11-C C11 C10
+C11-D C11
+C12-C C12 C01
+C12-D C12 C01
+C13-C C13 C05
+C13-D C13 C07 C06
+C14-C C14 C04
+C14-D C14 C06
+C15-C C15 C02
+C15-D C15 C02
+C16-C C16
+C16-D C16
+C17-C C17
+C17-D C17
+C18-C C18
+C18-D C18 C04
+C19-C C19
+C19-D C19
+C20-C C20 C06
+C20-D C20 C10
 MAP
